@@ -1,5 +1,5 @@
 From Coq Require Import Extraction ExtrOcamlBasic.
-From GmVerif Require Import Base.Bytes Codec.Der Codec.Hex Codec.Base64 Codec.Time.
+From GmVerif Require Import Base.Bytes Codec.Der Codec.Hex Codec.Base64 Codec.Time Codec.Pkcs Codec.Pem Codec.PkcsInst.
 Extraction Language OCaml.
 Extraction "../ocaml/gen/ModelC14.ml"
   Z.of_N N.of_nat
@@ -15,4 +15,12 @@ Extraction "../ocaml/gen/ModelC14.ml"
   sm2_sig_to_der sm2_sig_size sm2_sig_from_der
   hex_to_bytes hex_written hex_enc
   encode_block decode_block decode_block_m encode_update encode_finish decode_update decode_finish
-  time_to_str time_from_str time_to_der time_size time_from_der.
+  time_to_str time_from_str time_to_der time_size time_from_der
+  curve_to_der curve_from_der pk_algor_to_der pk_algor_from_der sm2_algor_to_der sm2_algor_from_der
+  enc_algor_to_der enc_algor_from_der prf_to_der prf_from_der
+  pbkdf2_params_to_der pbkdf2_params_from_der pbkdf2_algor_to_der pbkdf2_algor_from_der
+  pbes2_enc_algor_to_der pbes2_enc_algor_from_der pbes2_params_to_der pbes2_params_from_der
+  pbes2_algor_to_der pbes2_algor_from_der p8e_to_der p8e_from_der
+  sm2_ct_to_der sm2_ct_from_der sm2_pub_to_der sm2_pub_from_der sm2_pubinfo_to_der sm2_pubinfo_from_der
+  sm2_priv_to_der sm2_priv_from_der sm2_p8_to_der sm2_p8_from_der sm2_p8_open
+  pem_write pem_read kdf_sm3 cbcdec_sm4 cbcenc_sm4.
